@@ -17,8 +17,8 @@ import (
 	"sync/atomic"
 	"time"
 
-	"foxverif/hist"
 	"foxverif/conc"
+	"foxverif/hist"
 	"foxverif/kit"
 
 	"github.com/tigerwill90/fox"
@@ -454,4 +454,3 @@ func concurrent(run *kit.Run) {
 	conc.MethodFlip(run)
 	conc.OptionsStar(run)
 }
-
